@@ -1,6 +1,8 @@
 import Driver.Proto
 import TonicModel.Model.WebServer
+import TonicModel.Model.WebServerX
 import TonicModel.Spec.GrpcWeb
+import TonicModel.Spec.BodyHints
 namespace DriverC16
 open Proto WebServer
 open TMap (Pair str)
@@ -408,11 +410,171 @@ def handle0 (case obs : List String) : String × String :=
     | _, _, _, _ => bad
   | _ => bad
 
+/-! ### the kinds of the dimension audit (aC16; harness/src/c16_x.rs) -/
+
+/-- What the harness's scripted body says about itself in state `s` (c16.rs `ScriptBody`: bit 0 = exact size of the
+data still to come, bit 1 = at end of stream once no event is left).  Environment, not tonic. -/
+def scriptHint (hints : Nat) (s : List BodyEv) : Hint :=
+  let n := (flat s).length
+  { lo := if hints % 2 == 1 then n else 0,
+    hi := if hints % 2 == 1 then some n else none,
+    eos := hints / 2 % 2 == 1 && s.isEmpty }
+
+def hintTok (h : Hint) : String :=
+  toString h.lo ++ ":" ++ (match h.hi with | some u => toString u | none => "-")
+
+def renderHints (hs : List Hint) : List String :=
+  ["E", String.ofList (hs.map (fun h => if h.eos then '1' else '0')), "H"] ++ hs.map hintTok
+
+def parseHintTok (e : Char) (t : String) : Option Hint :=
+  match t.splitOn ":" with
+  | [l, u] => do
+    let lo ← nat? l
+    let hi ← if u == "-" then some none else (nat? u).map some
+    some { lo := lo, hi := hi, eos := e == '1' }
+  | _ => none
+
+def zipHints : List Char → List String → Option (List Hint)
+  | [], [] => some []
+  | e :: es, t :: ts => do
+    let h ← parseHintTok e t
+    let r ← zipHints es ts
+    some (h :: r)
+  | _, _ => none
+
+/-- `… E <bits> H <lo:hi>*` at the end of an observation: (what precedes it, the readings) -/
+def splitHints (obs : List String) : Option (List String × List Hint) :=
+  let front := obs.takeWhile (· != "E")
+  match obs.dropWhile (· != "E") with
+  | "E" :: bits :: "H" :: toks => (zipHints bits.toList toks).map (fun hs => (front, hs))
+  | _ => none
+
+def outDataLens : List Out → List Nat
+  | [] => []
+  | .data b :: r => b.length :: outDataLens r
+  | _ :: r => outDataLens r
+
+def outOthers : List Out → Nat
+  | [] => 0
+  | .trailers _ :: r => outOthers r + 1
+  | _ :: r => outOthers r
+
+/-- every reading is truthful about the frames that followed it (`Spec.BodyHints`); one reading per frame asked for -/
+def hintsTruthfulAux : List Hint → List Out → Bool
+  | [], [] => true
+  | h :: hs, o :: os =>
+    Spec.BodyHints.truthful
+      { lo := h.lo, hi := h.hi, eos := h.eos,
+        restData := outDataLens (o :: os), restOther := outOthers (o :: os),
+        clean := (o :: os).getLast? == some .eos }
+    && hintsTruthfulAux hs os
+  | _, _ => false
+
+def hintsVerdict (hs : List Hint) (frames : List String) : String :=
+  match parseOuts frames with
+  | some o => verdict [("hints-truthful", hintsTruthfulAux hs o)]
+  | none => "fail:unreadable-observation"
+
+def framesAfterBar (front : List String) : List String := (front.dropWhile (· != "|")).drop 1
+
+def splitOnTok (sep : String) (l : List String) : List (List String) :=
+  let r := l.foldr (fun t (acc : List String × List (List String)) =>
+    if t == sep then ([], acc.1 :: acc.2) else (t :: acc.1, acc.2)) ([], [])
+  r.1 :: r.2
+
+def headToks (h : RespHead) : List String :=
+  [toString h.status, verTok h.version, if h.ext then "1" else "0", "h"] ++ renderHeaders h.headers
+
 /-- `resph <hints> …`: the inner response body additionally gives size / end-of-stream hints; hints must
 not change what the layer emits, so the case is judged exactly like `resp`. -/
 def handle (case obs : List String) : String × String :=
   match case with
   | "resph" :: _hints :: rest => handle0 ("resp" :: rest) obs
+  -- hresp <hints> <acc> <evs>: `resp`, and the hints of the returned body before every frame
+  | "hresp" :: hints :: acc :: evToks =>
+    match nat? hints, optHex acc, parseEvs evToks with
+    | some hn, some accept, some evs =>
+      let a := encFromHeader accept
+      let mh := renderHints (respHints (scriptHint hn) a evs)
+      match splitHints obs with
+      | some (front, hs) =>
+        let (m, v) := handle0 ("resp" :: acc :: evToks) front
+        (join (toks m ++ mh), firstFail [v, hintsVerdict hs (match front with
+          | _ :: "h" :: r => (match parseHeaders r with | some (_, fr) => fr | none => [])
+          | _ => [])])
+      | none =>
+        let (m, _) := handle0 ("resp" :: acc :: evToks) obs
+        (join (toks m ++ mh), "fail:unreadable-observation")
+    | _, _, _ => bad
+  -- hreq <hints> <ct> <evs>: `req`, and the hints of the body the inner service is handed
+  | "hreq" :: hints :: ct :: evToks =>
+    match nat? hints, optHex ct, parseEvs evToks with
+    | some hn, some ctv, some evs =>
+      match obs with
+      | [_, "skipped"] => handle0 ("req" :: ct :: evToks) obs
+      | _ =>
+        let e := encFromHeader ctv
+        let mh := if isGrpcWeb ctv then renderHints (reqHints (scriptHint hn) e evs) else []
+        match splitHints obs with
+        | some (front, hs) =>
+          let (m, v) := handle0 ("req" :: ct :: evToks) front
+          (join (toks m ++ mh), firstFail [v, hintsVerdict hs (framesAfterBar front)])
+        | none =>
+          let (m, _) := handle0 ("req" :: ct :: evToks) obs
+          (join (toks m ++ mh), "fail:unreadable-observation")
+    | _, _, _ => bad
+  -- rhead <acc> <status> <ver> <ext> <n> (k v)* <evs>: the inner response's head is a dimension
+  | "rhead" :: acc :: st :: ver :: ext :: n :: rest =>
+    match optHex acc, nat? st, parseVer ver, nat? n with
+    | some accept, some status, some version, some n =>
+      match parsePairs n rest with
+      | some (hs, evToks) =>
+        match parseEvs evToks, ext == "0" || ext == "1" with
+        | some evs, true =>
+          let a := encFromHeader accept
+          let inner : RespHead := { status := status, version := version, ext := ext == "1", headers := hs }
+          let mhead := coerceResponseHead a inner
+          let mbody := respRun a evs
+          let reqHs : List Pair := (CT, GRPC_WEB) :: (match accept with | some x => [(ACCEPT, x)] | none => [])
+          let text := match Spec.GrpcWeb.expectFor (str "POST") false reqHs with
+            | .web _ t => t
+            | _ => false
+          -- observed: `<status> <ver> <ext> h <n> (name value)* <frames>`
+          let parsed : Option (RespHead × List Out) := match obs with
+            | st' :: v' :: e' :: "h" :: r => do
+              let st' ← nat? st'
+              let v' ← parseVer v'
+              let (h, fr) ← parseHeaders r
+              let o ← parseOuts fr
+              some ({ status := st', version := v', ext := e' == "1", headers := h }, o)
+            | _ => none
+          let exactLine := join (headToks mhead ++ renderOuts mbody)
+          let model := match parsed with
+            | some (h, o) => if headToks h == headToks mhead && canonEq (.bytes text) mbody o then join obs else exactLine
+            | none => exactLine
+          let v := match parsed with
+            | some (h, o) =>
+              firstFail [verdict ([("inner-status-kept", h.status == status),
+                                   ("inner-version-kept", h.version == version),
+                                   ("inner-extensions-kept", h.ext == (ext == "1"))]
+                                  ++ respHeaderClauses text hs h.headers),
+                         respVerdict text evs o]
+            | none => "fail:unreadable-observation"
+          (model, v)
+        | _, _ => bad
+      | none => bad
+    | _, _, _, _ => bad
+  -- seq <mode> ;; <call> ;; <call> …: a history on one configured value; every call is judged as if it were alone
+  | "seq" :: _mode :: ";;" :: rest =>
+    let cases := splitOnTok ";;" rest
+    let obss := splitOnTok ";;" obs
+    if cases.length != obss.length then
+      (join (List.intercalate [";;"] (cases.map (fun c => toks (handle0 c []).1))), "fail:one-answer-per-call")
+    else
+      let rs := (cases.zip obss).map (fun co => handle0 co.1 co.2)
+      (join (List.intercalate [";;"] (rs.map (fun r => toks r.1))), firstFail (rs.map (·.2)))
+  -- wresp <stack> <proto> <hints> <acc> <evs>: `resp` through the real transport::Server, read by a raw hyper client
+  | "wresp" :: _stack :: _proto :: _hints :: rest => handle0 ("resp" :: rest) obs
   | _ => handle0 case obs
 
 end DriverC16
